@@ -32,7 +32,9 @@ func (js *jsonBodyProcessor) ProcessRequest(reader io.Reader, v plugintypes.Tran
 	data, err := readJSON(ss, bpo.RequestBodyRecursionLimit)
 	// The collection is populated before checking the error to still perform a best effort inspection of the payload
 	for key, value := range data {
-		col.SetIndex(key, 0, value)
+		// Add, not SetIndex(key, 0, ...): ARGS_POST folds keys, so the members "A" and "a"
+		// of one object would otherwise overwrite each other.
+		col.Add(key, value)
 	}
 	if err != nil {
 		return err
